@@ -176,7 +176,7 @@ func pNondetChoice(in *Interp, fn *ssa.Function, a []Value) Value {
 
 func pAssume(in *Interp, fn *ssa.Function, a []Value) Value {
 	c := a[0].(Term)
-	if !c.C {
+	if !c.C && !in.sess.Quiet() {
 		// vacuity guard: the assumption must be satisfiable under the path condition
 		if in.sess.Check(c.E, "feas") == Unsat {
 			panic(pathEnd{"assume-false"})
@@ -202,6 +202,12 @@ func (in *Interp) checkAssert(label string, c Term, note string) {
 		}
 		in.reportViolation(label, mkBool(true), note)
 		panic(pathEnd{"violation"})
+	}
+	if in.sess.Quiet() {
+		// inside the part shared with the previous path: this obligation was decided there
+		R.noteAssert(in, label, "shared-prefix", 0, 0)
+		in.assume(c)
+		return
 	}
 	neg := tNot(c)
 	t0 := time.Now()
@@ -243,6 +249,9 @@ func (in *Interp) varNames() []string {
 
 // reportViolation: cond describes the violating states (true = the current path itself).
 func (in *Interp) reportViolation(label string, cond Term, note string) {
+	if in.sess.Quiet() {
+		return // already reported by the path that shares this prefix
+	}
 	r, model := in.sess.CheckModel(exprOrTrue(cond), in.varNames(), "assert")
 	if r == Unsat {
 		return
@@ -262,6 +271,9 @@ func (in *Interp) recordViolation(label string, model map[string]string, note st
 
 func pReach(in *Interp, fn *ssa.Function, a []Value) Value {
 	label := tagOf(a[0])
+	if in.sess.Quiet() {
+		return nil
+	}
 	// reachability witness: the path condition at this point is satisfiable
 	if in.sess.Check("", "feas") == Sat {
 		in.reached[label] = true
